@@ -349,7 +349,9 @@ func (c *otApplyContext) applyGPOSPair1(inner tables.PairPosData1, index int) bo
 	ap1 := c.applyGPOSValueRecord(inner.ValueFormat1, record.ValueRecord1, buffer.curPos(0))
 	ap2 := c.applyGPOSValueRecord(inner.ValueFormat2, record.ValueRecord2, &buffer.Pos[pos])
 
-	if ap1 || ap2 {
+	// the glyphs skipped between the two glyphs of the pair are not tried as
+	// first glyph of a pair, which they would be at the start of a run
+	if ap1 || ap2 || pos > buffer.idx+1 {
 		buffer.unsafeToBreak(buffer.idx, pos+1)
 	}
 
@@ -380,7 +382,7 @@ func (c *otApplyContext) applyGPOSPair2(inner tables.PairPosData2) bool {
 	ap1 := c.applyGPOSValueRecord(inner.ValueFormat1, vals.ValueRecord1, buffer.curPos(0))
 	ap2 := c.applyGPOSValueRecord(inner.ValueFormat2, vals.ValueRecord2, &buffer.Pos[skippyIter.idx])
 
-	if ap1 || ap2 {
+	if ap1 || ap2 || skippyIter.idx > buffer.idx+1 { // see applyGPOSPair1 for the skipped glyphs
 		buffer.unsafeToBreak(buffer.idx, skippyIter.idx+1)
 	} else {
 		buffer.unsafeToConcat(buffer.idx, skippyIter.idx+1)
